@@ -435,7 +435,7 @@ func init() {
 
 func init() {
 	opTimeout["c01par"] = 180 * time.Second
-	// c01par <carrier> <k> <len> <procs>   k logical connections over one physical session, each uploading and downloading its own
+	// c01par <carrier> <k> <len> <procs> [debug]   k logical connections over one physical session, each uploading and downloading its own
 	//   pattern of <len> octets AT THE SAME TIME; procs > 0 runs the scenario with that many scheduler threads (1: every goroutine
 	//   switch happens at a blocking point, which is when buffers shared by mistake are handed from one connection to another)
 	//  -> connect err | per connection: c <i> up <received> <firstdiff or -1> down <received> <firstdiff or -1>
@@ -444,6 +444,11 @@ func init() {
 		if procs > 0 {
 			old := runtime.GOMAXPROCS(procs)
 			defer runtime.GOMAXPROCS(old)
+		}
+		if len(a) > 4 && a[4].W == "debug" {
+			// the copy loops' logging variant (an environment switch read when a connection is piped): other readers, writers and buffers
+			os.Setenv("SOCKETACE_PIPE_DEBUG", "1")
+			defer os.Unsetenv("SOCKETACE_PIPE_DEBUG")
 		}
 		w, err := newE2E(carrier, nil)
 		if err != nil {
